@@ -1239,6 +1239,14 @@ Error JitAllocator::write(Span& span, WriteFunc write_fn, void* user_data, VirtM
   if (span.size() != size) {
     // OK, this is a bit awkward... However, shrink wants the original span and new_size, so we have to swap.
     std::swap(span._size, size);
+
+    // Truncating to zero means releasing the span - the same way `shrink(span, 0)` does.
+    if (size == 0) {
+      Error err = release(span.rx());
+      span = Span{};
+      return err;
+    }
+
     return JitAllocatorImpl_shrink(static_cast<JitAllocatorPrivateImpl*>(_impl), span, size, true);
   }
 
